@@ -1,9 +1,12 @@
 #![allow(dead_code)]
 mod adversarial;
 mod astwalk;
+mod asyncx;
 mod compat;
+mod coerce;
 mod coord;
 mod digest;
+mod exec;
 mod execb;
 mod fileid;
 mod gram;
@@ -46,6 +49,11 @@ fn main() {
         "scalars-replay" => scalars::replay(rest),
         "scalars-revalidate" => scalars::revalidate(rest),
         "digest" => digest::run(rest),
+        "exec-replay" => exec::replay(rest),
+        "async-replay" => asyncx::replay(rest),
+        "exec-record" => exec::record(rest),
+        "coerce-replay" => coerce::replay(rest),
+        "coerce-record" => coerce::record(rest),
         "adv-run" => parse::isolated(rest, "adv-child"),
         "adv-child" => adversarial::child(rest),
         "adv-gen" => adversarial::gen(rest),
